@@ -93,6 +93,7 @@ def corpus():
         dict(data=d20, cl=20, buf=4, sched=[], maxb=None, via='app', points=[['after', 5], ['gen', None]]),
         # the body is first touched only after the response has started (second chunk of a streaming handler)
         dict(data=list(range(40)), cl=34, buf=8, sched=[], maxb=None, via='app', points=[['gen_late', None]]),
+        dict(data=list(range(20)), cl=20, buf=2, sched=[], maxb=19, via='app', points=[['gen_late', None]], extra='http10'),
         dict(data=list(range(40)), cl=34, buf=8, sched=[], maxb=None, via='app', points=[['before', None], ['handler', 'mount']]),
         dict(data=list(range(40)), cl=34, buf=64, sched=[3, 3], maxb=None, via='app', points=[['handler', 2], ['gen', 'mount'], ['after', None]]),
         dict(data=list(range(40)), cl=34, buf=64, sched=[3, 3], maxb=None, via='app', points=[['gen_late', 4], ['gen_late', None]]),
@@ -114,6 +115,12 @@ def corpus():
         dict(data=list(range(30)), cl=12, buf=4, sched=[1, 1], maxb=5, via='ops',
              ops=[('body', 0, 3), ('setcl', 0, 2), ('body', 0, None), ('setinput', 0, [7, 7], []), ('body', 0, None)]),
         # record C04_copy_before_first_access_shares_stream_observation: the copy reads what follows the body
+        dict(data=list(range(1, 8)), cl=5, buf=3, sched=[0, 1], maxb=None, via='ops',
+             ops=[('body', 0, 2), ('handon', 0, None), ('body', 1, None), ('copy', 1), ('handon', 2, 3), ('body', 0, None)]),
+        dict(data=d20, cl=20, buf=64, sched=[], maxb=None, via='ops',
+             ops=[('handon', 0, None), ('body', 0, None), ('setcl', 0, 7), ('handon', 0, None), ('handon', 1, 2), ('body', 1, None)]),
+        dict(data=list(range(30)), cl=12, buf=4, sched=[1, 1], maxb=5, via='ops',
+             ops=[('body', 0, None), ('handon', 0, None), ('body', 0, None)]),
         dict(data=list(range(1, 7)), cl=2, buf=4, sched=[], maxb=None, via='ops',
              ops=[('copy', 0), ('body', 0, None), ('body', 1, None)]),
     ]
@@ -226,13 +233,18 @@ def _gen_ops(rng, ln):
         x = rng.random()
         if (i == 0 and read_first) or x < 0.4:
             ops.append(('body', r, rng.choice([None, None, 0, 1, 3, ln, ln + 5])))
-        elif x < 0.6:
+        elif x < 0.57:
             ops.append(('copy', r))
             nreq += 1
-        elif x < 0.72:
+        elif x < 0.68:
             ops.append(('setcl', r, rng.choice([0, 1, 3, ln, ln + 4, max(0, ln - 2)])))
-        elif x < 0.92:
+        elif x < 0.82:
             ops.append(('setother', r, rng.choice(REHEADERS[:1] + REHEADERS[2:])))
+        elif x < 0.93:
+            # the environ handed to the next consumer; a new request object only when r presents a body by then,
+            # which the generator cannot know: indices beyond the family answer 'badreq' on both sides
+            ops.append(('handon', r, rng.choice([None, None, 0, 2, ln])))
+            nreq += 1
         else:
             d2 = [rng.randrange(256) for _ in range(rng.randrange(0, 12))]
             ops.append(('setinput', r, d2, [rng.choice([0, 1, 4]) for _ in range(rng.randrange(0, 4))]))
@@ -280,7 +292,45 @@ def _run_ops(case):
             streams.append(s2)
             rq['wsgi.input'] = s2
             outs.append(['unit'])
+        elif kind == 'handon':
+            e0 = rq.environ
+            if 'ombott.request.body' not in e0 or 'ombott.request.body_error' in e0:
+                outs.append(['notbuf'])
+                continue
+            rq.body                                     # rewinds the buffered copy
+            handed = {kk: v for kk, v in e0.items() if not kk.startswith('ombott.')}
+            w = LogReader(handed['wsgi.input'])
+            handed['wsgi.input'] = w
+            streams.append(w)
+            nr = Request(handed, config=cfg)
+            reqs.append(nr)
+            k = op[2]
+            try:
+                b = nr.body.read() if k is None else nr.body.read(k)
+                outs.append(['bytes', list(b)])
+            except HTTPError as e:
+                outs.append(['err'] if e.status_code == 413 else ['http_%d' % e.status_code])
     return dict(status='ops', outs=outs, streams=[dict(reqs=s.log, pos=s.pos) for s in streams])
+
+
+class LogReader:
+    """what the next consumer finds under environ['wsgi.input'], with its reads logged like FragStream does"""
+
+    def __init__(self, obj):
+        self.obj = obj
+        self.log = []
+        self.pos = 0
+
+    def _tell(self):
+        return self.obj.tell() if hasattr(self.obj, 'tell') else getattr(self.obj, 'pos', 0)
+
+    def read(self, n=-1):
+        p0 = self._tell()
+        self.log.append([n, self.pos])
+        b = self.obj.read(n)
+        self.pos += len(b)
+        assert p0 >= 0
+        return b
 
 
 def _run_app(case):
@@ -338,6 +388,10 @@ def _run_app(case):
         if hasattr(out, 'close'):
             out.close()
     except Exception as e:
+        if getattr(e, 'status_code', None) == 413 and got.get('st'):
+            # refused on a first access made by the generator after the response had started: the refusal can only
+            # travel as the exception the server sees while iterating
+            return dict(status='too_large', reqs=st.log, pos=st.pos)
         return dict(status='app raised %s: %s' % (type(e).__name__, str(e)[:80]), reqs=st.log, pos=st.pos)
     if got.get('st', '').startswith('413'):
         return dict(status='too_large', reqs=st.log, pos=st.pos)
@@ -442,6 +496,8 @@ def _enc_op(op):
         return [2, r, op[2]]
     if kind == 'setother':
         return [3, r]
+    if kind == 'handon':
+        return [5, r, 0 if op[2] is None else 1, op[2] or 0]
     return [4, r] + enc_str(op[2]) + enc_list(op[3], lambda k: [k])
 
 
@@ -459,7 +515,7 @@ def _dec_out(q):
         return ['bytes', q.str()]
     if t == 1:
         return ['new', q.int()]
-    return [{2: 'unit', 3: 'badreq', 4: 'err'}.get(t, 'model_tag_%d' % t)]
+    return [{2: 'unit', 3: 'badreq', 4: 'err', 5: 'notbuf'}.get(t, 'model_tag_%d' % t)]
 
 
 def decode(out, case):
@@ -539,6 +595,25 @@ def _oracle_ops(case, obs):
         elif kind == 'copy':
             if r in content:
                 content[nreq] = content[r]
+            cl[nreq] = cl[r]
+            nreq += 1
+        elif kind == 'handon':
+            if out[0] == 'notbuf':
+                continue                    # nothing buffered to hand on: no new object
+            if out[0] == 'bytes' and r in content and content[r][0] == 'full':
+                want = content[r][1][:max(cl[r], 0)]
+                got, k = bytes(out[1]), op[2]
+                if got != (want if k is None else want[:k]):
+                    return ('op %d: the next consumer of the environ of request %d was presented %r (%d bytes), '
+                            'expected the buffered body cut to Content-Length: %r'
+                            % (i, r, got[:40], len(got), (want if k is None else want[:k])[:40]))
+                content[nreq] = ('full', want)
+            elif out[0] == 'err':
+                if case['maxb'] is None:
+                    return 'op %d: the next consumer was refused although no max_body_size is configured' % i
+                content[nreq] = ('refused', b'')
+            elif out[0] != 'bytes':
+                return 'op %d: the next consumer got %s' % (i, out)
             cl[nreq] = cl[r]
             nreq += 1
         elif kind == 'setcl':
